@@ -5,6 +5,7 @@
      VH <node> <h0,h1,...>        hash_key("<node>:<i>") for i = 0.. (u64, decimal)
      SH <shard> <h>               hash_key(<shard>)
      REG <n> <type 0 Ingester|1 Query|2 Combined> <status 0 Healthy|1 Suspected|2 Failed|3 Draining> <load>
+         [<capacity> <shards s+s+..|-> <addr variant> <heartbeat age s>]   (capacity/addr/age: ignored by the model)
      ST <n> <status> | HB <n> | DR <n> | LD <n> <load> | RM <n>
      RB <order>                   order = n,n,... registry iteration order ("-" = empty)
      RT <shard> <order>
@@ -87,7 +88,11 @@ let run_line (line : string) : string =
            | ["VH"; n; hs] -> vh := (int_of_string n, List.map z_of_string (split_on ',' hs)) :: !vh
            | ["VH"; n] -> vh := (int_of_string n, []) :: !vh
            | ["SH"; s; h] -> sh := (int_of_string s, z_of_string h) :: !sh
-           | ["REG"; n; ty; stt; load] -> apply (ORegister (n_of_string n, type_of ty, status_of stt, n_of_string load))
+           | ["REG"; n; ty; stt; load] -> apply (ORegister (n_of_string n, type_of ty, status_of stt, n_of_string load, []))
+           | ["REG"; n; ty; stt; load; _cap; shl; _addr; _hb] ->
+               (* capacity, address and heartbeat age are varied by the harness; routing must not depend on them *)
+               let shl = if shl = "-" then [] else List.map n_of_string (split_on '+' shl) in
+               apply (ORegister (n_of_string n, type_of ty, status_of stt, n_of_string load, shl))
            | ["ST"; n; stt] -> apply (OSetStatus (n_of_string n, status_of stt))
            | ["HB"; n] -> apply (OHeartbeat (n_of_string n))
            | ["DR"; n] -> apply (ODrain (n_of_string n))
